@@ -194,11 +194,15 @@ Definition compile (fuel cf : nat) (n : nfa) : outcome dfa :=
 Definition dfa_size (d : dfa) : nat := length (dtable d) / lang_size d.
 
 (* self.states[self.lang_size * state.0 + symbol as usize] *)
+(* the symbol is a u8: values from 256 up do not exist in the code and are a
+   model-level error here rather than a read in the next row *)
 Definition transition (d : dfa) (q : nat) (c : N) : outcome (option nat) :=
-  match nth_error (dtable d) (lang_size d * q + N.to_nat c) with
-  | Some r => Ok r
-  | None => Panic 6
-  end.
+  if N.ltb c 256 then
+    match nth_error (dtable d) (lang_size d * q + N.to_nat c) with
+    | Some r => Ok r
+    | None => Panic 6
+    end
+  else Panic 8.
 
 (* try_fold *)
 Fixpoint transition_many (d : dfa) (q : nat) (s : list N) : outcome (option nat) :=
